@@ -41,7 +41,7 @@ def run(rec, cfg):
     MR.CHECKS.update({"value"})
     MR.attach_apply()
     rng = cfg.rng("c01")
-    rules = MR.rule_instances()
+    rules = RC.with_flippers(MR.rule_instances())
     n = cfg.scale(260, 30000)
     for src, text, hints in RC.start_texts(cfg, rng, n, equations=0.15):
         if cfg.out_of_time():
@@ -49,6 +49,7 @@ def run(rec, cfg):
             break
         big = src == "big-text"
         root = RC.parse_start(text, allow_big=big)
+        rules = RC.flip(rules, rng)
         use = RC.rules_for(src, rules)
         if root is None:
             continue
